@@ -255,15 +255,33 @@ def readCase (seed j pi ki : Nat) (heavy : Bool) : Case :=
   let content := ((t.files.lookup path).getD [])
   mkCase { op := "read", path, kind, content, files := t.files, dbName := t.dbName, dbOID := t.dbOID, table := t.table, heavy }
 
+/-- the paths of the sequence files (relkind S) of cluster `j` -/
+def seqPathsOf (seed j : Nat) : List Bytes :=
+  let (c, _) := Driver.Fam.genClusterCase seed j 1
+  c.content.flatMap fun od => (od.2.cls.live.filter fun r => r.kind == 83 && r.filenode != 0).map fun r => Model.basePath od.1 r.filenode
+
+/-- the first generated cluster (index 10 …) whose looked-at database has a sequence, and the index of that file among its
+candidate paths; (6, 7) if there is none among 60 -/
+def seqSlot (seed : Nat) : Nat × Nat :=
+  ((List.range 60).findSome? fun k =>
+    let j := 10 + k
+    let sp := seqPathsOf seed j
+    if sp.isEmpty then none else
+      let t := clusterTree seed j
+      (t.paths.findIdx? fun p => sp.contains p).map fun i => (j, i)).getD (6, 7)
+
 def fskindGen (seed idx _size : Nat) : Case :=
   if idx < nScanFixed then
     let (op, path, kind) := scanFixed.getD idx ("cksum", "base/5/16390", "fifo")
     scanCase seed idx op path kind
   else if idx < nFixed then
-    -- 10 paths (7 fixed names + 3 relation files) × 4 kinds on the first hand-made cluster that has user tables;
-    -- #18 = global/1262 as a FIFO
+    -- 10 paths × 4 kinds: the 7 fixed names, a heap file and a TOAST file on hand-made cluster 6 (tables t / its TOAST
+    -- relation 16393), and a sequence file on the first generated cluster that has one; #18 = global/1262 as a FIFO
     let i := idx - nScanFixed
-    readCase seed 1 (i / 4) (i % 4) (i == 0)
+    if i / 4 < 9 then readCase seed 6 (i / 4) (i % 4) (i == 0)
+    else
+      let (j, pi) := seqSlot seed
+      (fun (c : Case) => { c with tags := c.tags ++ ["seqfile"] }) (readCase seed j pi (i % 4) false)
   else
     let g := Prng.ofSeed seed idx
     let (which, j, pi, ki, pick) : Nat × Nat × Nat × Nat × Nat :=
